@@ -79,6 +79,7 @@ fn repeat_grid(ctx: &Ctx) {
                             ));
                         } else {
                             ctx.outcome("repeat-identical", 1);
+                            ctx.sample_tagged("repeat", || json!({"input": case.clone(), "first_output_values": a.iter().take(4).map(|b| f64::from_bits(*b)).collect::<Vec<_>>()}));
                             ctx.distinct(hash_of(&a));
                         }
                         if n_chains == 3 {
@@ -218,7 +219,6 @@ pub fn run(ctx: &Ctx) {
     pool_sizes(ctx);
     progress_vs_plain(ctx);
     super::c07_sched::interleavings(ctx);
-    ctx.sample(json!({"repeat": {"sampler": "NUTS<f64,NdArray<f64>>", "seed": "18446744073709551615", "n_chains": 3, "n_collect": NC, "n_discard": ND}}));
     ctx.assume("rayon's own internal interleavings are not under the controller (free-running pools of each size); chain-level interleavings are, in part (a)");
     ctx.assume("harness built with overflow-checks=on so that wrapping seed arithmetic is loud, as in the debug profile users test with");
 }
